@@ -15,6 +15,7 @@ func (g *Gen) resetVC() {
 	g.structs = map[string]*types.Struct{}
 	g.strLits = map[string]string{}
 	g.tags = map[string]int{}
+	g.tagTypes = nil
 	g.seenCall = map[*Clause]bool{}
 	g.siteOrds = map[*Clause]map[ssa.Instruction]int{}
 	g.coveredSite = map[ssa.Instruction]bool{}
